@@ -500,7 +500,7 @@ impl Property for C07 {
         "C07"
     }
     fn rule(&self) -> &'static str {
-        "every case = (one of 17 entry points that debit / burn / pay gas from / send as / consume for / deploy under the name of / execute as an operator a named address: token approve, transfer, transfer_from, burn, burn_from, mint_from; gas pay_gas, add_gas; gateway call_contract, validate_message; ITS deploy_interchain_token, deploy_remote_interchain_token, interchain_transfer (burn and lock paths), deploy_remote_canonical_token; operators execute; example send) x (one of 10 authoriser classes: the named address, its counterparty (recipient / allowance grantor / sender), the owner of the called contract, a stranger, nobody, the named address for other arguments, a contract naming itself without entries, a contract naming another address, every address argument aliased to the called contract itself or to the named address with nobody signing) x world state (with / without an allowance held by the counterparty; with / without / with an expired grantor's allowance for delegated spends (or one revoked by approving 0, used up by its spender - also by one pull of the holder's whole balance, the holder being funded again afterwards -, or an 'unlimited' one revoked / replaced); named address = an ordinary account or the token's owner/minter; amount 1..40 or its negative; ordinary state or every contract upgraded-but-not-migrated). The full 17x10 matrix is enumerated in every run for both allowance states; proptest samples amounts. Engine: the authorisation trees (incl. nested burn / gas-payment nodes) are recorded in a twin world with all auths mocked and replayed in a fresh identical world signed by exactly one principal. Oracle: success iff the named address authorised (or is the directly calling contract); every refusal leaves the ledger snapshot identical. non-trivial = authoriser is not simply the named address; distinct by Debug hash. A share of the random cases is an entry-point sweep (construction as described for C13: the exported functions of all shipped contracts read from the sources of the tree under test, a complete deployed system, pooled arguments - including well-formed signer sets nobody installed and proofs properly signed by the gateway's own signer set over digests that belong to no command -, every require_auth satisfied by the host's mock and recorded; entry points absent from the pinned inventory get 300 deterministic cases each); oracle: an account's balance of any of three tokens decreases only if that account is among the recorded signers or had granted an allowance to a recorded signer; non-trivial = the call succeeded"
+        "every case = (one of 17 entry points that debit / burn / pay gas from / send as / consume for / deploy under the name of / execute as an operator a named address: token approve, transfer, transfer_from, burn, burn_from, mint_from; gas pay_gas, add_gas; gateway call_contract, validate_message; ITS deploy_interchain_token, deploy_remote_interchain_token, interchain_transfer (burn and lock paths), deploy_remote_canonical_token; operators execute; example send) x (one of 10 authoriser classes: the named address, its counterparty (recipient / allowance grantor / sender), the owner of the called contract, a stranger, nobody, the named address for other arguments, a contract naming itself without entries, a contract naming another address, every address argument aliased to the called contract itself or to the named address with nobody signing) x world state (with / without an allowance held by the counterparty; with / without / with an expired grantor's allowance for delegated spends (or one revoked by approving 0, used up by its spender - also by one pull of the holder's whole balance, the holder being funded again afterwards -, or an 'unlimited' one revoked / replaced); named address = an ordinary account or the token's owner/minter; amount 1..40 or its negative; ordinary state or every contract upgraded-but-not-migrated). The full 17x10 matrix is enumerated in every run for both allowance states; proptest samples amounts. Engine: the authorisation trees (incl. nested burn / gas-payment nodes) are recorded in a twin world with all auths mocked and replayed in a fresh identical world signed by exactly one principal. Oracle: success iff the named address authorised (or is the directly calling contract); every refusal leaves the ledger snapshot identical. non-trivial = authoriser is not simply the named address; distinct by Debug hash. A share of the random cases is an entry-point sweep (construction as described for C13: the exported functions of all shipped contracts read from the sources of the tree under test, a complete deployed system, pooled arguments - including well-formed signer sets nobody installed and proofs properly signed by the gateway's own signer set over digests that belong to no command -, every require_auth satisfied by the host's mock and recorded; entry points absent from the pinned inventory get 300 deterministic cases each); oracle: an account's balance of any of three tokens decreases only if that account is among the recorded signers or had granted an allowance to a recorded signer; non-trivial = the call succeeded Since rounds 12-13: principal classes 'the named address signed a call differing in exactly the k-th argument' (k = 0..6; skipped where the neighbouring call is not a possible one); and a state in which the gas token is one anybody could deploy (its transfer asks nobody), for the entry points where the named address is more than the payer, with the token service holding some of the canonical asset."
     }
     fn fixed_is_exhaustive(&self) -> Option<&'static str> {
         Some("entry-point x authoriser matrix (17 x 10) x {with,without} counterparty allowance enumerated completely; amounts sampled")
